@@ -39,7 +39,7 @@ func init() {
 		"vndIteU64":   vndIte,
 		"vndIteU8":    vndIte,
 		"vndIteF64":   vndIte,
-		"vndYield":    func(fr *frame, a []value) value { fr.i.schedPoint("yield"); return nil },
+		"vndYield":    func(fr *frame, a []value) value { fr.i.voluntaryYield(); return nil },
 		"vndSymbolic": func(fr *frame, a []value) value { return true },
 		"vndConcrete": vndConcrete,
 		// ghost state of harnesses: plain accesses that the race check ignores
